@@ -26,6 +26,27 @@ Definition says_no (v : cval) : Prop :=
   | CStr s => In (lower (strip s)) no_words
   end.
 
+(* the algorithms a detached (Redirect) signature can be made with and verified by the receiver: RSA PKCS#1 v1.5 over
+   SHA-1 / SHA-2, named by their xmldsig / RFC 4051 identifiers, exact text (SAML bindings 3.4.4.1: SigAlg is such an
+   identifier).  A SigAlg that is anything else - another algorithm family, an unknown or misspelt identifier, the empty
+   text - names nothing the receiver can verify: no valid signature can be claimed under it. *)
+Definition SIG_ALGS : list string :=
+  ["http://www.w3.org/2000/09/xmldsig#rsa-sha1";
+   "http://www.w3.org/2001/04/xmldsig-more#rsa-sha224";
+   "http://www.w3.org/2001/04/xmldsig-more#rsa-sha256";
+   "http://www.w3.org/2001/04/xmldsig-more#rsa-sha384";
+   "http://www.w3.org/2001/04/xmldsig-more#rsa-sha512"].
+Definition sig_alg (sa : string) : Prop := In sa SIG_ALGS.
+
+(* the instant an IssueInstant text DENOTES (xs:dateTime): the written date and time minus the written offset; 'Z' and no
+   designator are UTC (SAML core 1.3.3); an offset beyond +-14:00 and anything that is no zone designator denote nothing *)
+Definition denoted (b : body) : option Z :=
+  match izone b with
+  | ZUtc | ZNone => Some (issued b)
+  | ZOff m => if (Z.abs m <=? 840)%Z then Some (issued b - 60 * m)%Z else None
+  | ZBad => None
+  end.
+
 Section Spec.
   Variables key cert esig dsig doc : Type.
   Variable cert_of : key -> cert.
@@ -54,13 +75,14 @@ Section Spec.
   Definition enveloped_valid (x : input) (e : envsig) : Prop :=
     exists k, e_sig e = esign k (msg x) /\ trusted_cert (cfg x) (msg x) e (cert_of k).
 
-  (* SigAlg and Signature were received and the signature was made with a metadata key of the
-     sender over SAMLRequest, RelayState (as received, possibly absent) and SigAlg *)
+  (* SigAlg and Signature were received, SigAlg names a signature algorithm, and the signature was made with a
+     metadata key of the sender over SAMLRequest, RelayState (as received, possibly absent) and SigAlg *)
   Definition detached_valid (x : input) : Prop :=
     exists k sa sg,
       sigalg x = Some sa /\ signature x = Some sg
       /\ sg = dsign k (origdoc x, relay_state x, sa)
-      /\ In (cert_of k) (md_certs (cfg x) (sender (msg x))).
+      /\ In (cert_of k) (md_certs (cfg x) (sender (msg x)))
+      /\ sig_alg sa.
 
   (* endpoints the receiver has configured for a service and binding, in any of its roles
      (an IdP server also plays the aa / aq / pdp roles); a bare URL counts for every binding *)
@@ -94,7 +116,8 @@ Section Spec.
       /\ (forall d, destination (msg x) = Some d -> d <> "" ->
             (exists d', own_endpoint c svc (binding x) d') -> own_endpoint c svc (binding x) d)
       /\ version (msg x) = "2.0"
-      /\ (now x - 86400 - skew c <= issued (msg x) <= now x + 86400 + skew c)%Z.
+      (* the instant IssueInstant denotes - however it is written - is at most a day plus skew off *)
+      /\ (exists t, denoted (msg x) = Some t /\ now x - 86400 - skew c <= t <= now x + 86400 + skew c)%Z.
 
   (* ... read off the receiver object as it is configured in memory *)
   Definition spec (x : input) (v : verdict) : Prop :=
